@@ -32,8 +32,9 @@ Section Wrapped.
   Variable wrap : Z -> Z.
   (* worst-case framing assumed of the back end in use: zstd stores incompressible input in raw blocks
      (3 bytes per 128 KiB + at most 22 bytes of frame header/checksum); zlib's deflateBound is
-     len + len/4096 + len/16384 + len/2^25 + 13.  Both are below len + len/3277 + 40. *)
-  Hypothesis wrap_bound : forall s, 0 <= s -> wrap s <= s + s / 3277 + 40.
+     len + len/4096 + len/16384 + len/2^25 + 13.  Both are below len + len/3000 + 40 for every len
+     (backends_meet_wrap_bound below; len/3277, the figure sampled by the check, is tighter and holds for deflateBound only below 5.6e8 bytes). *)
+  Hypothesis wrap_bound : forall s, 0 <= s -> wrap s <= s + s / 3000 + 40.
 
   Theorem out_size_bound ty st n tiny const best_speed k thr :
     ty_ok ty -> (st = 4 \/ st = 8) -> 0 <= n -> 0 <= k ->
@@ -53,8 +54,8 @@ Section Wrapped.
       destruct best_speed; [lia|].
       pose proof (wrap_bound _ S0) as W.
       set (s := presize ty st n k thr) in *. set (r := raw ty n) in *.
-      assert (s / 3277 <= (r + 56) / 3277) by (apply Z.div_le_mono; lia).
-      assert ((r + 56) / 3277 <= r / 1000 + 1) by lia.
+      assert (s / 3000 <= (r + 56) / 3000) by (apply Z.div_le_mono; lia).
+      assert ((r + 56) / 3000 <= r / 1000 + 1) by lia.
       lia.
   Qed.
 End Wrapped.
@@ -67,4 +68,29 @@ Proof.
   - assert (n / 131072 = 0) by (apply Z.div_small; lia). lia.
   - pose proof (Z.div_mod n 131072 ltac:(lia)). pose proof (Z.mod_pos_bound n 131072 ltac:(lia)).
     pose proof (Z.div_mod (n * 1200) 1000 ltac:(lia)). pose proof (Z.mod_pos_bound (n * 1200) 1000 ltac:(lia)). lia.
+Qed.
+
+(* ---- the hypothesis of out_size_bound is met by both back ends' documented worst cases, for every length ---- *)
+Lemma zstd_worst_meets_wrap_bound : forall s, 0 <= s -> zstd_worst s <= s + s / 3000 + 40.
+Proof. intros s Hs. unfold zstd_worst. lia. Qed.
+
+Lemma deflate_bound_meets_wrap_bound : forall s, 0 <= s -> deflate_bound s <= s + s / 3000 + 40.
+Proof. intros s Hs. unfold deflate_bound. lia. Qed.
+
+(* the tighter figure of the earlier statement (s/3277) is implied, and is NOT met by deflateBound for very long streams *)
+Lemma wrap_3277_implies_3000 : forall s w, 0 <= s -> w <= s + s / 3277 + 40 -> w <= s + s / 3000 + 40.
+Proof. intros s w Hs H. assert (s / 3277 <= s / 3000) by (apply Z.div_le_compat_l; lia). lia. Qed.
+
+Lemma deflate_bound_exceeds_3277_refuted : exists s, 0 <= s /\ ~ deflate_bound s <= s + s / 3277 + 40.
+Proof. exists 1000000000. split; [lia|]. vm_compute. intro H; apply H; reflexivity. Qed.
+
+Theorem out_size_bound_backends (wrap:Z -> Z) :
+  (forall s, 0 <= s -> wrap s <= zstd_worst s \/ wrap s <= deflate_bound s) ->
+  forall ty st n tiny const best_speed k thr, ty_ok ty -> (st = 4 \/ st = 8) -> 0 <= n -> 0 <= k ->
+  thr <= raw_stream ty st n + 8 ->
+  out_size wrap ty st n tiny const best_speed k thr <= raw ty n + 128 + raw ty n / 1000.
+Proof.
+  intros H. apply out_size_bound. intros s Hs. destruct (H s Hs) as [W|W].
+  - pose proof (zstd_worst_meets_wrap_bound s Hs). lia.
+  - pose proof (deflate_bound_meets_wrap_bound s Hs). lia.
 Qed.
